@@ -918,7 +918,8 @@ func c17NotFound(c *h.Ctx) {
 		return
 	}
 	a := margs{id: "p0", chips: 10, seat: 4, ids: []string{"p0"}, gc: 1, parts: map[string]int{"p0": 0}, level: 2, sb: 1, bb: 2, dur: 1}
-	for _, id := range []string{"never", "closed", "released", "failed", "closed-twice", ""} {
+	// (round 7: ids that merely look like the live table's id - letter case, blanks, prefix, extension - are unknown)
+	for _, id := range []string{"never", "closed", "released", "failed", "closed-twice", "", "LIVE", "Live", "live ", " live", "liv", "live0"} {
 		if _, err := m.GetTableEngine(id); !errors.Is(err, pt.ErrManagerTableNotFound) {
 			c.Violate("C17/table-not-found-expected/GetTableEngine", fmt.Sprintf("GetTableEngine(%q) returned %v", id, err), nil)
 			return
@@ -929,7 +930,7 @@ func c17NotFound(c *h.Ctx) {
 				err = err0 // zero-value arguments (empty id, nil lists, nil map): the lookup must still come first
 			}
 			if !errors.Is(err, pt.ErrManagerTableNotFound) {
-				c.Violate("C17/table-not-found-expected/"+name, fmt.Sprintf("%s on table id %q (%s) returned %v instead of the table-not-found error", name, id, map[string]string{"never": "never created", "closed": "closed", "released": "released", "failed": "creation failed", "closed-twice": "closed through its engine, then through the manager", "": "empty id"}[id], err), nil)
+				c.Violate("C17/table-not-found-expected/"+name, fmt.Sprintf("%s on table id %q (%s) returned %v instead of the table-not-found error", name, id, map[string]string{"never": "never created", "closed": "closed", "released": "released", "failed": "creation failed", "closed-twice": "closed through its engine, then through the manager", "": "empty id", "LIVE": "look-alike of a live id", "Live": "look-alike of a live id", "live ": "look-alike of a live id", " live": "look-alike of a live id", "liv": "look-alike of a live id", "live0": "look-alike of a live id"}[id], err), nil)
 				return
 			}
 			c.Count("not_found_probes", 1)
